@@ -1098,7 +1098,10 @@ pub(super) fn poll_recv(
         // Window-update trigger: if we freed ≥ half the recv cap,
         // advertise. Crude SWS avoidance; refine alongside real flow
         // control.
-        let should_update = n >= recv_cap / 2;
+        // Once the peer's FIN is in, nothing more can arrive: there is no
+        // window left to advertise, and the peer may already have
+        // forgotten the connection (it would answer with a RST).
+        let should_update = n >= recv_cap / 2 && !tcb.peer_fin;
         (n, should_update, local, peer)
     };
 
